@@ -137,3 +137,75 @@ def asg_chain(e):
         lhs.append(e.ch[0]); op = e.op
         e = e.ch[1]
     return lhs, e, op
+
+
+# ---------------------------------------------------------------------------------------
+# model of the emitted dependency tables
+# ---------------------------------------------------------------------------------------
+def _refs_in(e):
+    return [r.n for r in e.walk() if r.k == 'ref'] if e is not None else []
+
+
+class Tables:
+    """classes / flows / deps of one emitted unit, from the initialisers of the
+    parsec_task_class_t / parsec_flow_t / parsec_dep_t tables."""
+    def __init__(self, u):
+        self.classes = {}      # name -> dict
+        self.flows = {}        # global name -> dict
+        self.deps = {}         # global name -> dict
+        self.class_by_global = {}
+        for name, g in u.globals().items():
+            ty = (g.ty or '').replace('const ', '').strip()
+            if '*' in ty or '[' in ty:
+                continue
+            try:
+                f = g.fields()
+            except Exception:
+                continue
+            if ty == 'parsec_task_class_t' and 'name' in f and f['name'].k == 'str':
+                c = {'global': name, 'name': f['name'].n, 'id': f['task_class_id'].cv if 'task_class_id' in f else None,
+                     'nb_flows': f['nb_flows'].cv if 'nb_flows' in f else None, 'fields': f,
+                     'in': [r for r in _refs_in(f.get('in')) if r.startswith('flow_of_')],
+                     'out': [r for r in _refs_in(f.get('out')) if r.startswith('flow_of_')], 'line': g.line}
+                self.classes[c['name']] = c
+                self.class_by_global[name] = c
+            elif ty == 'parsec_flow_t' and 'flow_index' in f:
+                self.flows[name] = {'global': name, 'name': f['name'].n if 'name' in f and f['name'].k == 'str' else None,
+                                    'flow_index': f['flow_index'].cv, 'fields': f, 'line': g.line,
+                                    'dep_in': [r for r in _refs_in(f.get('dep_in')) if r.startswith('flow_of_')],
+                                    'dep_out': [r for r in _refs_in(f.get('dep_out')) if r.startswith('flow_of_')]}
+            elif ty == 'parsec_dep_t' and 'belongs_to' in f:
+                tc = f.get('task_class_id')
+                fl = _refs_in(f.get('flow'))
+                self.deps[name] = {'global': name, 'fields': f, 'line': g.line,
+                                   'task_class_id': tc.cv if tc is not None else None,
+                                   'local_data': tc is not None and tc.n == 'PARSEC_LOCAL_DATA_TASK_CLASS_ID',
+                                   'flow': fl[0] if fl else None,
+                                   'dep_index': f['dep_index'].cv if 'dep_index' in f else None,
+                                   'belongs_to': (_refs_in(f.get('belongs_to')) or [None])[0],
+                                   'cond': (_refs_in(f.get('cond')) or [None])[0],
+                                   'ctl_gather': (_refs_in(f.get('ctl_gather_nb')) or [None])[0]}
+        self.flow_owner = {}
+        for c in self.classes.values():
+            for fl in set(c['in']) | set(c['out']):
+                self.flow_owner[fl] = c['name']
+        self.class_by_id = {c['id']: c for c in self.classes.values()}
+
+
+def macro_names(owner, e):
+    """names of the macros the constants under expression e were spelled through (owner: Func or Global)"""
+    out = set()
+    if e is None or e.nid is None:
+        return out
+    st = [e.nid]
+    while st:
+        x = st.pop()
+        n = owner.nodes[x]
+        if n.get('mo'):
+            out.add(n['mo'])
+        if n.get('mi'):
+            out.add(n['mi'])
+        for c in n.get('ch', []):
+            if c is not None and c >= 0:
+                st.append(c)
+    return out
